@@ -5,5 +5,6 @@ CONSTANTS
   RestartRule = "stop_old"
   PortRule = "opened"
   ShutdownRule = "close_always"
+  TeardownOrder = "responder_first"
 INVARIANT Emit1
 CHECK_DEADLOCK FALSE
